@@ -527,9 +527,10 @@ def rule_D8(ctx) -> None:
             continue
         n_ret += 1
         v = p.value
-        made_here = v[0] == "call" and any(e.kind == "call" and e.data == v for e in p.events)
+        accessor = v[0] == "call" and v[1][0] == "a" and v[1][2] in ("get", "setdefault", "pop", "__getitem__")
+        made_here = v[0] == "call" and not accessor and any(e.kind == "call" and e.data == v for e in p.events)
         if not made_here:
-            if v[0] in ("sub", "a") or (v[0] == "call" and v[1][0] == "a" and v[1][2] in ("get", "setdefault", "pop")):
+            if v[0] in ("sub", "a") or accessor:
                 if not immutable_only(p):
                     shared.append((p, v))
             else:
